@@ -126,7 +126,18 @@ def witness_cases():
     # and the request does not answer 200; then the valid part is posted again
     hrefused = {"datasets": ["a"], "ops": [{"op": "hbatch", "ds": "a", "ents": many[:14], "reject": True}] + fin_reads(1, ["e1", "e5", "e12"])
                 + [{"op": "hbatch", "ds": "a", "ents": many[10:14]}] + fin_reads(1, ["e1", "e5", "e12"])}
-    return [hrefused, race, txnrace, merged, big, nullprop, http, proxy, stale, refused, longbatch, tokens, shared,
+    # three uploads through the HTTP handler, the second one binding the default prefix of its @context to ANOTHER namespace:
+    # its ids, property keys, reference keys and reference values all denote http://w/...; the third is back to the usual one
+    R9 = {"props": {"p1": "a", "p2": 7}, "refs": {"r1": "e2", "r2": ["e3", "e4"]}}
+    twoctx = {"datasets": ["a"], "ops": [
+        {"op": "hbatch", "ds": "a", "ents": [sc.with_id("e1", R9), sc.with_id("e2", A)]},
+        {"op": "hbatch", "ds": "a", "ents": [sc.with_id("e1", R9), sc.with_id("e2", B)], "ctx": "http://w/"},
+        {"op": "hbatch", "ds": "a", "ents": [sc.with_id("e1", R9), sc.with_id("e2", B)]}] + fin_reads(1, ["e1", "e2"]) + [{"op": "hentities", "ds": "a", "limits": [0], "ld": True}, {"op": "get", "id": "http://w/e1", "datasets": ["a"], "merge": True}]}
+    # every engineered (old, new) pair: the new version must be what listing and lookup show
+    pairs = [{"datasets": ["a"], "ops": [{"op": "batch", "ds": "a", "ents": [sc.with_id("e1", o_)]},
+                                         {"op": "batch", "ds": "a", "ents": [sc.with_id("e1", n_)]}] + fin_reads(1, ["e1"])}
+             for o_, n_ in sc.ENGINEERED[1:]]
+    return pairs + [twoctx, hrefused, race, txnrace, merged, big, nullprop, http, proxy, stale, refused, longbatch, tokens, shared,
         # two tombstones differing in one reference target only: two versions
         {"datasets": ["a"], "ops": [{"op": "batch", "ds": "a", "ents": [sc.with_id("e1", sc.TOMBPAIR[0])]},
                                     {"op": "batch", "ds": "a", "ents": [sc.with_id("e1", sc.TOMBPAIR[1])]}] + fin_reads(1, ["e1"])},
